@@ -162,7 +162,16 @@ func runC15(c *kit.Ctx) {
 							okLoop = true
 						}
 					}
-					if cmp.Op == token.GTR && inWeb(x) && kit.Same(y, blockLen) {
+					// "!=" is the same test where the loop has already established sum >= blockLen
+					neqAfterLoop := false
+					if cmp.Op == token.NEQ && inWeb(x) && kit.Same(y, blockLen) {
+						for _, f := range kit.FactsAt(iff.Block()) {
+							if fc, ok := kit.CanonCmp(f.Cond, f.Pol); ok && fc.Op == token.GEQ && inWeb(kit.Root(fc.X)) && kit.Same(kit.Root(fc.Y), blockLen) {
+								neqAfterLoop = true
+							}
+						}
+					}
+					if (cmp.Op == token.GTR || neqAfterLoop) && inWeb(x) && kit.Same(y, blockLen) {
 						// true edge returns an error
 						for _, in2 := range kit.SuccOnTrue(iff).Instrs {
 							if r, ok := in2.(*ssa.Return); ok {
